@@ -152,6 +152,20 @@ static void single_case(vh::Rng& r) {
    bool same = true; for (int k = 0; k < K; ++k) same = same && ok1[k] == ok2[k] && same_vec(first[k], second[k]);
    out->cell("history|evaluation-order-independence", same ? 0 : 1);
    if (!same) out->fail("C19:history-dependence", "results of a point depend on what was evaluated before it in the same process", c);
+   // object re-use: a model object that held another point before, re-filled through the setters and recalculated, gives the bits of a fresh object
+   for (int rep = 0; rep < 2; ++rep) {
+      Pt X = gen_point(r), Y = gen_point(r); X.mssm = Y.mssm = true;
+      if (rep == 1) { Y = X; const double k = std::ldexp(1.0, 1 + r.range(5)); Y.mp.mu *= k; Y.mp.m1 *= k; Y.mp.m2 *= k; Y.mp.m3 *= k; Y.mp.ma *= k; Y.mp.Q *= k; for (int g = 0; g < 3; ++g) { Y.mp.ml[g] *= k; Y.mp.me[g] *= k; Y.mp.mq[g] *= k; Y.mp.mU[g] *= k; Y.mp.mD[g] *= k; Y.mp.Ae[g] *= k; Y.mp.Au[g] *= k; Y.mp.Ad[g] *= k; } }
+      try {
+         MSSMNoFV_onshell fresh = make_mssm_pt(X);
+         MSSMNoFV_onshell reused = make_mssm_pt(Y); gen::fill_mssm(reused, X.mp); reused.calculate_masses();
+         if (fresh.get_problems().have_problem() || reused.get_problems().have_problem()) { out->count("object re-use: point with problems"); continue; }
+         bool same = true; std::string first;
+         for (auto& f : MFS) { const double a = f.f(fresh), b = f.f(reused); if (!vh::same_bits(a, b)) { if (same) first = std::string(f.n) + ": fresh " + vh::num(a) + " vs re-used " + vh::num(b); same = false; } }
+         out->cell(std::string("object-reuse|MSSM|") + (rep ? "previous point = same point scaled by k" : "previous point unrelated"), same ? 0 : 1);
+         if (!same) { J w = X.mp.json(); w.str("model", "MSSM").obj("previous_point", Y.mp.json()); out->fail("C19:object-reuse:MSSM", "a re-filled and recalculated model object gives other results than a fresh one (" + first + ")", w); }
+      } catch (const Error&) { out->count("object re-use: point rejected"); }
+   }
    // neighbour histories: P' differs from P in exactly one input (an SM input or a model parameter). P' evaluated right after P must give the
    // same bits as P' evaluated right after an unrelated point Q - what a result remembered under an incomplete key would break.
    for (int rep = 0; rep < 4; ++rep) {
